@@ -24,14 +24,73 @@ TABLE_SAFE = {
     ("XMLWriter.__init__", "encoding"): "codec name accepted by codecs.lookup two lines above",
     ("XMLSerializer.serialize", "self.encoding"): "codec name",
     ("XMLSerializer.predicate", "object.language"): "language tags are validated against _lang_tag_regex ([a-zA-Z0-9-]) when the Literal is constructed",
-    ("XMLSerializer.subject", "subject"): "BNode arm: rdf:nodeID must be an NCName; rdflib generates N<hex> ids and parsers only accept NCName-like labels - not an escaping matter",
-    ("XMLSerializer.predicate", "object"): "BNode arm: see XMLSerializer.subject",
 }
 for _q in ("XMLWriter.namespaces", "XMLSerializer.serialize"):
     TABLE_SAFE[(_q, "prefix")] = "a namespace prefix has to be an NCName for the document to be namespace-well-formed; escaping cannot repair a non-NCName prefix (prefixes come from bind()/generated nsN)"
 RAW_WRITES_OK = {
     ("PrettyXMLSerializer.predicate", "writer.stream.write(object)"): "rdf:XMLLiteral whose value is a parsed xml.dom.minidom.Document: well-formed by construction",
 }
+
+
+def _ncname_producing(mod, fn: ast.AST, depth: int = 0) -> bool:
+    """every return of fn is an NCName by construction: a name returned under `if is_ncname(<that name>)`, a call of another such function, or an
+    entry of a table all of whose stored values are '<letter...>%s' % <integer name> (generated labels)"""
+    if not isinstance(fn, ast.FunctionDef) or depth > 2:
+        return False
+    rets = [r for r in own_nodes(fn) if isinstance(r, ast.Return)]
+    if not rets:
+        return False
+
+    def int_name(nm: str) -> bool:
+        vals = [a.value for a in own_nodes(fn) if isinstance(a, ast.Assign) and norm(a.targets[0]) == nm] + \
+               [a.value for a in own_nodes(fn) if isinstance(a, ast.AugAssign) and norm(a.target) == nm]
+        def num(v):
+            if isinstance(v, ast.Constant):
+                return isinstance(v.value, int)
+            if isinstance(v, ast.Call):
+                return norm(v.func) == "int"
+            if isinstance(v, ast.BinOp):
+                return num(v.left) and num(v.right)
+            if isinstance(v, ast.IfExp):
+                return num(v.body) and num(v.orelse)
+            return isinstance(v, ast.Name) and v.id == nm
+        return bool(vals) and all(num(v) for v in vals)
+
+    def label(v: ast.AST) -> bool:
+        return isinstance(v, ast.BinOp) and isinstance(v.op, ast.Mod) and isinstance(v.left, ast.Constant) and isinstance(v.left.value, str) \
+            and v.left.value[:1].isalpha() and v.left.value.replace("%s", "").replace("%d", "").isalnum() and isinstance(v.right, ast.Name) and int_name(v.right.id)
+
+    for r in rets:
+        v = r.value
+        if isinstance(v, ast.Name):
+            guard = [p for p in mod.parents(r) if isinstance(p, ast.If) and isinstance(p.test, ast.Call) and norm(p.test.func) == "is_ncname" and p.test.args and norm(p.test.args[0]) == v.id
+                     and any(r is x for s_ in p.body for x in ast.walk(s_))]
+            if not guard:
+                return False
+        elif isinstance(v, ast.Subscript) and isinstance(v.value, ast.Name):
+            stores = [a.value for a in own_nodes(fn) if isinstance(a, ast.Assign) and isinstance(a.targets[0], ast.Subscript) and norm(a.targets[0].value) == v.value.id]
+            if not stores or not all(label(x) for x in stores):
+                return False
+        elif isinstance(v, ast.Call):
+            callee = _resolve_local(mod, fn, v)
+            if callee is None or not _ncname_producing(mod, callee, depth + 1):
+                return False
+        else:
+            return False
+    return True
+
+
+def _resolve_local(mod, ctx_fn: ast.AST, call: ast.Call):
+    """the FunctionDef in this module that a call `f(...)` / `self.m(...)` / `self.__m(...)` denotes"""
+    fn = call.func
+    if isinstance(fn, ast.Name):
+        d = mod.defs.get(fn.id)
+        return d if isinstance(d, ast.FunctionDef) else None
+    if isinstance(fn, ast.Attribute) and isinstance(fn.value, ast.Name) and fn.value.id == "self":
+        for q, d in mod.defs.items():
+            if isinstance(d, ast.FunctionDef) and "." in q and q.rsplit(".", 1)[1] == fn.attr and any(ctx_fn is x for x in ast.walk(mod.defs.get(q.rsplit(".", 1)[0], ast.Module(body=[], type_ignores=[])))):
+                return d
+    return None
 
 
 def run(repo: Repo, rep: Report) -> None:
@@ -123,6 +182,7 @@ def run(repo: Repo, rep: Report) -> None:
                             pass
 
                 site: list = []
+                busy: set = set()
 
                 def classify(e: ast.AST) -> str | None:
                     """reason if safe, None if unsanitised"""
@@ -138,6 +198,31 @@ def run(repo: Repo, rep: Report) -> None:
                             return classify(e.args[0])
                     if isinstance(e, ast.Name) and e.id in safe_names:
                         return safe_names[e.id]
+                    if isinstance(e, ast.Call):
+                        callee = _resolve_local(mod, f, e)
+                        if callee is not None and _ncname_producing(mod, callee):
+                            return "NCName by construction (%s)" % callee.name
+                    if isinstance(e, ast.Subscript) and isinstance(e.value, ast.Call) and norm(e.value.func).endswith("compute_qname_strict") \
+                            and isinstance(e.slice, ast.Constant) and e.slice.value == 0:
+                        return "prefix part of a computed qname"
+                    if isinstance(e, ast.Attribute) and isinstance(e.value, ast.Name) and e.value.id == "self" and e.attr.startswith("__") and e.attr not in busy:
+                        # a private attribute of the serializer: safe if everything the class stores in it is
+                        busy.add(e.attr)
+                        try:
+                            stores = [a.value for mm in mod.methods(cls).values() for a in own_nodes(mm) if isinstance(a, ast.Assign) and norm(a.targets[0]) == norm(e)]
+                            if stores and all(piece_ok(v) for v in stores):
+                                return "private attribute holding only constants / computed prefixes"
+                        finally:
+                            busy.discard(e.attr)
+                    if isinstance(e, ast.Name) and e.id not in busy:
+                        # a local built from safe pieces ("%s:Description" % rdf)
+                        busy.add(e.id)
+                        try:
+                            vals = [a.value for a in own_nodes(f) if isinstance(a, ast.Assign) and len(a.targets) == 1 and norm(a.targets[0]) == e.id]
+                            if vals and all(piece_ok(v) for v in vals):
+                                return "built from safe pieces"
+                        finally:
+                            busy.discard(e.id)
                     if isinstance(e, ast.Attribute) and norm(e) in ("self.indent",):
                         return "indentation"
                     if isinstance(e, ast.BinOp) and isinstance(e.op, ast.Mult):
@@ -162,11 +247,6 @@ def run(repo: Repo, rep: Report) -> None:
                                 other = norm(par_.target.elts[1])
                                 if any(isinstance(x, ast.Call) and norm(x.func) == "quoteattr" and x.args and norm(x.args[0]) == other for x in ast.walk(site[0])):
                                     return "namespace prefix paired with a quoteattr()-sanitised namespace: must be an NCName, escaping cannot repair it"
-                    if isinstance(e, ast.Name):
-                        for par_ in mod.parents(site[0]) if site else []:
-                            if isinstance(par_, ast.If) and isinstance(par_.test, ast.Call) and norm(par_.test.func) == "isinstance" and len(par_.test.args) == 2 \
-                                    and norm(par_.test.args[0]) == e.id and norm(par_.test.args[1]) == "BNode" and any(site[0] is x for s_ in par_.body for x in ast.walk(s_)):
-                                return "BNode identifier in an rdf:nodeID attribute (NCName requirement, not an escaping matter)"
                     return None
 
                 def operands(e: ast.AST) -> list[ast.AST]:
